@@ -58,9 +58,9 @@ func RegisterAll() {
 	core.Register(&core.Check{
 		Property: "C07",
 		Level:    "exploration",
-		Rule: "real activeauth.DoActiveAuth inside an installed session against the reference signer: RSA moduli 1024..4096 x trailers SHA-1/224/256/384/512 x chip-chosen M1 (random, zeros, FF, leading zeros), ECDSA on every curve in plain and DER form, caller-supplied challenge in half the runs; then an adversarial chip answer: bit flips, signature over another challenge (relay), by another key, truncated / extended, r or s zero / = n / + n, n-s (malleable, valid), digest over M1 only, unknown or mismatching trailer, random bytes, empty, DER for a plain key and DER with trailing bytes; RSA moduli of 1027/1030/2045/2047 bits for soundness only; challenge plumbing is additionally checked in the e2e and store engines; " +
+		Rule: "real activeauth.DoActiveAuth inside an installed session against the reference signer: RSA moduli 1024..4096 x trailers SHA-1/224/256/384/512 x chip-chosen M1 (random, zeros, FF, leading zeros), ECDSA on every curve in plain and DER form, caller-supplied challenge in half the runs; then an adversarial chip answer: bit flips, signature over another challenge (relay), by another key, truncated / extended, r or s zero / = n / + n, n-s (malleable, valid), digest over M1 only, unknown or mismatching trailer, random bytes, empty, DER for a plain key and DER with trailing bytes; RSA moduli of 1027/1030/2045/2047 bits for soundness only; offline nonce binding: live reads with a caller-supplied challenge are serialised and verified offline with the same, another, or the original challenge against a rewritten / truncated / extended recorded nonce, with and without a broken signature - every mismatch must be a hard error of Verify; " +
 			"distinct_nontrivial counts distinct (mode, key, supplied, accepted, reference-valid) tuples",
-		Engines:        []core.Engine{ProtoEngine{"aa"}},
+		Engines:        []core.Engine{ProtoEngine{"aa"}, StoreVerifyEngine{}},
 		Assumptions:    []string{"acceptance is demanded only for genuine responses with moduli whose bit length is a multiple of 8 (DESIGN.md 6.7 scope note)", "an adversarial response may be accepted iff the reference verifier confirms it is a valid signature by the DG15 key over exactly the challenge sent (signature malleability never alarms)", "ISO/IEC 9796-2 min(s, n-s) signatures are not generated"},
 		RealComponents: protoReal, SimComponents: protoSim,
 		RequiredProbes: []string{"adversarial_but_valid_accepted"},
@@ -154,10 +154,10 @@ func RegisterAll() {
 	core.Register(&core.Check{
 		Property: "C12",
 		Level:    "exploration",
-		Rule: "boundary-scoped: adversarial bytes reach the parsers only as a chip, a link or a stored blob can deliver them. Engines: hostile-files (a byzantine chip serves structure-aware lies - bit/byte/truncation faults, TLV lengths larger/smaller/4 GiB/indefinite, nesting beyond the limit, > 10 000 nodes, tag 00, long tags, inner length lies, duplicated/empty content, claimed giant images - in each of EF.CardAccess, EF.CardSecurity, EF.SOD, EF.COM, DG1/2/7/11/12/13/14/15/16 through a real read, then the result goes through export, store and the offline verifier); smduel-resp (forged protected responses into secure-messaging decoding); store-corrupt and store-verify (rotten and byzantine blobs into import / Verify / evidence verification); pki-forgery (corrupted SOD, CardSecurity, master lists into CMS and certificate parsing). Monitors: panic (escaped, or contained by the reader's recover and reproduced on the constructor alone), worker death re-executed alone, deterministic exchange and logging-step bounds, bytes allocated per call against a linear budget; " +
+		Rule: "boundary-scoped: adversarial bytes reach the parsers only as a chip, a link or a stored blob can deliver them. Engines: hostile-files (a byzantine chip serves structure-aware lies - bit/byte/truncation faults, TLV lengths larger/smaller/4 GiB/indefinite, nesting beyond the limit, > 10 000 nodes, tag 00, long tags, inner length lies, duplicated/empty content, claimed giant images - in each of EF.CardAccess, EF.CardSecurity, EF.SOD, EF.COM, DG1/2/7/11/12/13/14/15/16 through a real read, then the result goes through export, store and the offline verifier); smduel-resp (forged protected responses into secure-messaging decoding); store-corrupt and store-verify (rotten and byzantine blobs into import / Verify / evidence verification); pki-forgery (corrupted SOD, CardSecurity, master lists into CMS and certificate parsing); proto-aa / proto-bac (hostile chip answers to INTERNAL / EXTERNAL AUTHENTICATE incl. signatures by the key holder over short or oddly framed recoverable messages). Monitors: panic (escaped, or contained by the reader's recover and reproduced on the constructor alone), worker death re-executed alone, deterministic exchange and logging-step bounds, bytes allocated per call against a linear budget; " +
 			"distinct_nontrivial counts distinct (engine-specific target, mutation, outcome) tuples",
-		Engines:        []core.Engine{HostileFilesEngine{}, SMRespEngine{}, StoreCorruptEngine{}, StoreVerifyEngine{}, PKIForgeryEngine{}},
-		Assumptions:    []string{"boundary-scoped: only inputs that a chip, link or stored blob can deliver through the real read / verify paths are generated; calling each entry point with arbitrary byte strings is input fuzzing and not part of this claim (DESIGN.md 6.12)", "allocation budget: 8 MiB + 2 KiB per input byte for one response; 256 MiB + 8 KiB per stored byte for a whole read; 64 MiB + 4 KiB per byte for Verify"},
+		Engines:        []core.Engine{HostileFilesEngine{}, SMRespEngine{}, StoreCorruptEngine{}, StoreVerifyEngine{}, PKIForgeryEngine{}, ProtoEngine{"aa"}, ProtoEngine{"bac"}},
+		Assumptions:    []string{"boundary-scoped: only inputs that a chip, link or stored blob can deliver through the real read / verify paths are generated; calling each entry point with arbitrary byte strings is input fuzzing and not part of this claim (DESIGN.md 6.12)", "allocation budget: 8 MiB + 2 KiB per input byte for one response; 256 MiB + 8 KiB per stored byte for a whole read; 1 MiB + 1 KiB per byte for one file constructor call; 64 MiB + 4 KiB per byte for Verify"},
 		RealComponents: []string{"gmrtd reader, iso7816 (SM decode), tlv, every document constructor, cms, mrz, iso19794/39794, document CBOR import, verifier, evidence verification"},
 		SimComponents:  []string{"byzantine SimChip file contents", "adversarial link", "rotten / byzantine store", "byzantine issuer"},
 		RequiredProbes: []string{"rejected"},
